@@ -201,10 +201,61 @@ def r03_3(ctx):
         ctx.check(R, ok, 'is_empty:%s,%s' % (vname, 'empty' if emp else 'non-empty'), 'is_empty(%s with %s key) = %s' % (vname, 'empty' if emp else 'non-empty', sorted(outs, key=str)), fn=h)
 
 
+def r03_7(ctx):
+    """the convenience collectors drain the stream and keep one entry per item; the map / set wrappers delegate to the raw one of the
+    matching kind (keys+values / keys / values)"""
+    R = ctx.rule('R03.7', 'collectors (into_byte_vec, into_str_keys, ...): one entry per streamed item, taken from that item; wrappers delegate to their counterpart', floor=10)
+    lib = ctx.lib
+    want = {'into_byte_vec': ('key', 'value'), 'into_str_vec': ('key', 'value'), 'into_byte_keys': ('key',), 'into_str_keys': ('key',), 'into_values': ('value',)}
+    deleg = {'into_byte_vec': 'into_byte_vec', 'into_str_vec': 'into_str_vec', 'into_byte_keys': 'into_byte_keys', 'into_str_keys': 'into_str_keys', 'into_values': 'into_values',
+             'into_strs': 'into_str_keys', 'into_bytes': 'into_byte_keys'}
+    for f in lib.fn_list:
+        n = f.path.rsplit('::', 1)[-1]
+        if n not in deleg or f.kind == 'Closure' or 'Stream' not in f.path:
+            continue
+        if not f.loops():
+            cs = [f.callee(t) or '' for _, t in f.calls()]
+            tg = [c for c in cs if c.rsplit('::', 1)[-1] in deleg and c.startswith('raw::Stream')]
+            if tg:
+                ctx.check(R, [c.rsplit('::', 1)[-1] for c in tg] == [deleg[n]], 'delegates:' + f.path, '%s must delegate to the raw %s (found %s)' % (n, deleg[n], [c.rsplit('::', 1)[-1] for c in tg]), fn=f)
+            else:
+                ctx.undecided(R, 'delegates:' + f.path, 'collector without a loop and without a recognised delegation', fn=f)
+            continue
+        if n not in want:
+            continue
+        k = 0
+        for p in explore(f, max_visits=1, havoc=True, limit=400):
+            if p.end != 'cut':
+                continue
+            calls = path_calls(p, expand=False)
+            nx = [c for c in calls if isinstance(c[2], str) and c[2].endswith('::next')]
+            if not nx:
+                continue
+            k += 1
+            pushes = [c for c in calls if isinstance(c[2], str) and c[2].endswith('::push')]
+            if len(pushes) != 1:
+                ctx.violation(R, 'collect:' + f.path, 'an iteration of %s keeps %d entries for one streamed item (exactly one expected): items are dropped or duplicated' % (n, len(pushes)), fn=f)
+                continue
+            v = pushes[0][3][1]
+            item = lambda x: any(is_call(y, '::next') for y in walk(x))
+            parts = v[1] if v[0] == 'tuple' else (v,)
+            ok = len(parts) == len(want[n]) and all(item(x) for x in parts)
+            if ok and want[n] == ('key', 'value'):
+                ok = not any(is_call(y, 'Output::value') for y in walk(parts[0])) and any(is_call(y, 'Output::value') for y in walk(parts[1]))
+            elif ok and want[n] == ('value',):
+                ok = any(is_call(y, 'Output::value') for y in walk(parts[0]))
+            elif ok:
+                ok = not any(is_call(y, 'Output::value') for y in walk(parts[0]))
+            ctx.check(R, ok, 'collect:' + f.path, '%s must keep (%s) of the item just streamed: %s' % (n, ', '.join(want[n]), fmt(v)[:80]), fn=f)
+        if k == 0:
+            ctx.undecided(R, 'collect:' + f.path, 'no draining iteration recognised', fn=f)
+
+
 def run(ctx):
     ctx.step(r03_1, ctx)
     ctx.step(r03_2, ctx)
     ctx.step(r03_3, ctx)
+    ctx.step(r03_7, ctx)
     R34 = ctx.rule('R03.4', 'seek endgames: inclusive steps back one transition and pops one key byte; exclusive pushes the child frame at transition 0 with the whole bound\'s output; divergence resumes at the first larger byte', floor=5)
     R35 = ctx.rule('R03.5', 'DFS step: stack and key buffer move in lock step on every path; frame contents, emitted key/value and cut-off placement', floor=8)
     R36 = ctx.rule('R03.6', 'empty key: armed iff the lower bound is empty and inclusive; emitted only after the cut-off test on the empty string', floor=4)
